@@ -22,7 +22,7 @@ NOT_PROVED = ['the quantitative clause "within 0.2% of the combined extent" (bot
               '_curve_curve_intersections_t bounds the AREA of the two boxes by 1e-3, not their diameter, so no distance bound follows; what is proved '
               'is the bound |B1(t1)-B2(t2)| <= widths/heights of the two final boxes (+0.06% sliver slack), and that a common point is never pruned '
               'as long as boxes enclose their pieces',
-              'operand-order independence up to the tolerance (watched by the search only)',
+              'operand-order independence up to the tolerance: proved exactly for the reports BEFORE de-duplication (swapped permutation, any carrier incl. binary64; same exception kind over R; mixed-degree operands run the identical computation), and what survives de-duplication is characterised (C06_cc_dedup_sym); count equality / swapped membership after de-duplication is REFUTED on the binary64 model (C06_dedup_count_symmetry_refuted: 1 report one way, 2 the other; same on the real code) -- this is the recorded finding C06-dedup-bucket',
               'no-miss is proved for the reports BEFORE the per-level de-duplication and under the hypothesis that every visited piece is enclosed by '
               'its reported box (C02: true unless a derivative zero falls in the 1% end slivers of a piece); after de-duplication only "a report '
               'with the same 2-decimal key of t1 survives" is proved',
